@@ -312,7 +312,7 @@ fn record(out: &str, a: &Args) {
             let mut have_base = lp.map(|v| v != 0).unwrap_or(false);
             let mut ents = vec![];
             for _ in 0..ne {
-                let mut addr = |rng: &mut Rng| (if rng.chance(1, 12) { rng.boundary64() } else { region.wrapping_add(rng.below(0x1000)) }) & m;
+                let addr = |rng: &mut Rng| (if rng.chance(1, 12) { rng.boundary64() } else { region.wrapping_add(rng.below(0x1000)) }) & m;
                 let d: Vec<u8> = if loc { (0..rng.below(4)).map(|_| rng.next() as u8).collect() } else { vec![] };
                 let k = if wild {
                     rng.below(5)
